@@ -39,6 +39,9 @@ def chanmix(seed, n):
 def tswin(seed, n):
     return _mk("tswin", "hc", gen_hc.tswin_case, n, seed * 101 + 18)
 
+def ideallat(seed, n):
+    return _mk("ideallat", "hc", gen_hc.ideallat_case, n, seed * 101 + 19)
+
 def hostile(seed, n):
     return _mk("hostile", "hc", gen_hc.hostile_case, n, seed * 101 + 6)
 
